@@ -198,7 +198,7 @@ ASSUMPTIONS = [
     "location.LostSpan memo cache bypassed",
     "a feature 'overlaps' by its hull (min start, max stop), as the db stores it",
 ]
-OUTSIDE = ["strided views", "alignment-level features and projection (get_projected_feature, Aligned.make_feature)", "degapping", "GFF / GenBank loaded dbs"]
+OUTSIDE = ["strided views", "features added on the alignment itself (on_alignment=True), multi-span features through an alignment, ArrayAlignment", "degapping", "GFF / GenBank loaded dbs"]
 TRUSTED = ["the window / coordinate mapping in props/c04.py (uses the C01-verified view reading)"]
 
 
@@ -222,6 +222,11 @@ def obligations(tier):
                         # the new-style Sequence carries its own copy of this code
                         if T or (h in ("rc_slice", "slice") and partial and (nspans == 2 or use_offset)):
                             obs.append(Ob("new/" + nm, __name__, "mk", {"history": h, "minus": minus, "nspans": nspans, "partial": partial, "use_offset": use_offset, "style": "new"}, timeout=1800, twins=("end", "hit"), group=h))
+    from props import c04_aln
+
+    for h in c04_aln.HISTORIES:
+        for strand in ("+", "-"):
+            obs.append(Ob(f"alignment_feature/{h}/{'minus' if strand == '-' else 'plus'}", "props.c04_aln", "mk_alignment_feature", {"history": h, "strand": strand}, timeout=3600, group="alignment", grade="realised-input"))
     return obs
 
 
